@@ -557,3 +557,38 @@ def shared_sides(ctx: Ctx) -> None:
     from . import C06 as _c06
     from .common import support
     support(ctx, [_c06.r6], {"Rectangle.find_location"})
+
+
+@rule("C09", "R10.branch-numbering", "TUPLE/ORDER",
+      "the fixing tables number the branches of a hard module in the order of the module tuple's side lists (north, south, east, "
+      "west: slots 1..4, each list in its own order), starting at 1 after the trunk -- the order in which Model creates the "
+      "rectangles -- so that entry i of the tables describes rectangle i of the model", floor=1)
+def r10(ctx: Ctx) -> None:
+    f = ctx.func(LEGAL, "netlist_to_utils")
+    c = canon_function(f, ctx.model)
+    ok = False
+    n = 0
+    for lp in atoms_of(c, lambda x: x[0] == "for" and len(x) == 5 and x[2] == ("c", ("g", "range"), (k_num(1), k_num(5)), ())):
+        q = lp[1]
+        inner = atoms_of(lp[3], lambda x: x[0] == "for" and len(x) == 5 and x[2][:1] == ("s",) and x[2][2] == q)
+        if len(inner) != 1:
+            continue
+        n += 1
+        tup = inner[0][2][1]
+        body = inner[0][3]
+        stores = [st for st in body if st[0] == "set" and len(st) == 3 and st[1][0] == "s"]
+        idx = {st[1][2] for st in stores}
+        incs = [st for st in body if st[0] == "aug" and st[1] == "Add" and st[3] == k_num(1)]
+        if len(idx) == 1 and len(incs) == 1 and incs[0][2] in idx and len(stores) == 4:
+            counter = incs[0][2]
+            # the counter starts at 1 right before the loop over the slots and is advanced nowhere else
+            inits = [st for st in atoms_of(c, lambda x: x[0] == "set" and len(x) == 3 and x[1] == counter)]
+            other_incs = [st for st in atoms_of(c, lambda x: x[0] == "aug" and len(x) == 4 and x[2] == counter)]
+            # the tuple whose slots are walked is the module tuple that is appended to the list handed to the model
+            appended = atoms_of(c, lambda x: x[0] == "expr" and x[1][0] == "c" and x[1][1][0] == "a" and x[1][1][2] == "append" and x[1][2] == (tup,))
+            ok = len(inits) == 1 and inits[0][2] == k_num(1) and len(other_incs) == 1 and bool(appended)
+    ctx.site(f.where, "table entries numbered by walking slots 1..4 of the module tuple with one counter from 1", slot_loops=n)
+    if not ok:
+        ctx.report(f.where, "branch-numbering", "the fixing tables do not number the branches by walking the side lists of the module tuple (slots 1..4) with one counter "
+                   "starting at 1: entry i then describes another rectangle than rectangle i of the model (a branch is pinned to another branch's offset and size)",
+                   lineno=f.node.lineno)
